@@ -53,6 +53,8 @@ def ser16(expr):
         return {"k": "at", "t": "const", "name": "pi"}
     if isinstance(expr, (sp.Symbol, sp.Indexed)):
         return ser.ser_atom(expr)
+    if _is_derivative(expr):           # dx1(M[0]) of a mapping without expressions: the atom  AMap M 0 [1]
+        return ser.ser_atom(expr)
     if isinstance(expr, sp.Add):
         return {"k": "add", "a": [ser16(a) for a in expr.args]}
     if isinstance(expr, sp.Mul):
@@ -73,6 +75,11 @@ def ser16(expr):
         if isinstance(expr, f):
             return {"k": "fn", "f": name, "a": ser16(expr.args[0])}
     raise ser.Unsupported("node %s" % type(expr).__name__)
+
+
+def _is_derivative(expr):
+    from sympde.topology.derivatives import DifferentialOperator
+    return isinstance(expr, DifferentialOperator)
 
 
 def ser_mat(m):
@@ -176,9 +183,60 @@ def get_class(case):
             if u.get("ldim") is not None:
                 ns["_ldim"] = u["ldim"]
                 ns["_pdim"] = u["pdim"]
+            # the class may provide its own Jacobian and / or inverse Jacobian as matrices of strings
+            if u.get("jac") is not None:
+                ns["_jac"] = [list(r) for r in u["jac"]]
+            if u.get("inv_jac") is not None:
+                ns["_inv_jac"] = [list(r) for r in u["inv_jac"]]
             _user_classes[key] = type(str(u.get("name", "UserMapping")), (Mapping,), ns)
         return _user_classes[key]
+    if case.get("cls") == "Mapping":          # a mapping without analytical expressions
+        return Mapping
     return getattr(am, case["cls"])
+
+
+def _wrap_dim(d, how):
+    """the ways a dimension may be given: an int, or a tuple / list / sympy Tuple / Matrix of length 1"""
+    import sympy as sp
+    if how in (None, "int"):
+        return d
+    if how == "tuple":
+        return (d,)
+    if how == "list":
+        return [d]
+    if how == "Tuple":
+        return sp.Tuple(d)
+    if how == "Matrix":
+        return sp.Matrix([d])
+    raise ValueError(how)
+
+
+def _wrap_coords(names, how):
+    import sympy as sp
+    if how in (None, "list"):
+        return list(names)
+    if how == "tuple":
+        return tuple(names)
+    if how == "Tuple":
+        return sp.Tuple(*[sp.Symbol(n) for n in names])
+    if how == "symbols":                      # Symbol objects without the real assumption
+        return [sp.Symbol(n) for n in names]
+    if how == "mixed":
+        return [sp.Symbol(n) if i % 2 else n for i, n in enumerate(names)]
+    raise ValueError(how)
+
+
+def build_kwargs(case, cls, exact=False):
+    kw = {k: param_value(v, exact) for k, v in (case.get("params") or {}).items()}
+    how = case.get("dim_as")
+    if case.get("dim") is not None:
+        kw["dim"] = _wrap_dim(case["dim"], how)
+    elif case.get("ldim") is not None and cls._ldim is None:
+        kw["ldim"] = _wrap_dim(case["ldim"], how)
+        kw["pdim"] = _wrap_dim(case["pdim"], how)
+    if case.get("coordinates") is not None:
+        kw["coordinates"] = _wrap_coords(case["coordinates"], case.get("coord_as"))
+    return kw
 
 
 def build(case, exact=False):
@@ -186,13 +244,7 @@ def build(case, exact=False):
     from sympy.core.cache import clear_cache
     clear_cache()
     cls = get_class(case)
-    kw = {k: param_value(v, exact) for k, v in (case.get("params") or {}).items()}
-    if case.get("dim") is not None:
-        kw["dim"] = case["dim"]
-    elif case.get("ldim") is not None and cls._ldim is None:
-        kw["ldim"] = case["ldim"]
-        kw["pdim"] = case["pdim"]
-    return cls("M", **kw)
+    return cls(str(case.get("mname", "M")), **build_kwargs(case, cls, exact))
 
 
 def run_entry(case):
@@ -241,10 +293,14 @@ def exact_eval(e, prec=50):
     return v
 
 
-def coherence_at(M, consts, pt, prec=50, tol=None):
+def coherence_at(M, consts, pt, prec=50, tol=None, base="ref", given=None):
     """The property itself on the stored quantities of the real object M, with the symbolic constants and the
     logical coordinates replaced by the exact rationals in `consts`/`pt`.  Independent reference: sympy.diff of
-    the (substituted) coordinate expressions.  Returns list of failures [(part, i, j, got, want)]."""
+    the (substituted) coordinate expressions.  Returns list of failures [(part, i, j, got, want)].
+
+    base="stored" (classes that supply their own matrices): the INTERNAL coherence of what the object exposes - the
+    inverse, metric and determinant are measured against the stored Jacobian instead of the reference one, and the
+    stored matrices against `given` = the supplied ones in the runner's own reading ({"jac": m | None, "inv": m | None})."""
     import sympy as sp
     if tol is None:
         # Float literals inside the stored expressions (CollelaMapping2D's "2.", float parameters) are evaluated by
@@ -271,10 +327,26 @@ def coherence_at(M, consts, pt, prec=50, tol=None):
     def close(a, b, s):
         return abs(a - b) <= tol * s
 
-    for i in range(p):
-        for j in range(l):
-            if not close(Jv[i][j], Jref[i][j], scale):
-                bad.append(("jac", i, j, str(Jv[i][j])[:25], str(Jref[i][j])[:25]))
+    if base == "ref":
+        for i in range(p):
+            for j in range(l):
+                if not close(Jv[i][j], Jref[i][j], scale):
+                    bad.append(("jac", i, j, str(Jv[i][j])[:25], str(Jref[i][j])[:25]))
+    else:
+        Jref = Jv
+        scale = 1 + max(abs(x) for r in Jref for x in r)
+    for key, stored in (("jac", J), ("inv", M.jacobian_inv_expr)):
+        g = (given or {}).get(key)
+        if g is None:
+            continue
+        if stored is None or tuple(stored.shape) != tuple(g.shape):
+            bad.append(("given-" + key, 0, 0, "shape %s" % (None if stored is None else str(stored.shape)), str(g.shape)))
+            continue
+        for i in range(g.shape[0]):
+            for j in range(g.shape[1]):
+                a, b = val(stored[i, j]), val(g[i, j])
+                if not close(a, b, 1 + abs(b)):
+                    bad.append(("given-" + key, i, j, str(a)[:25], str(b)[:25]))
     Ji = M.jacobian_inv_expr
     if l == p:
         if Ji is None:
@@ -299,6 +371,127 @@ def coherence_at(M, consts, pt, prec=50, tol=None):
     if not close(got, dref, scale ** (2 * l)):
         bad.append(("mdet", 0, 0, str(got)[:25], str(dref)[:25]))
     return bad
+
+
+def read_given(M, case):
+    """The matrices a user class supplies (strings), in the runner's OWN reading - independent of Mapping.__new__:
+    symbols are matched by name and replaced simultaneously: logical coordinates -> the mapping's logical coordinates
+    (those beyond ldim -> 0), parameters -> the values given to the constructor resp. the parameter objects of the
+    coordinate expressions, names of the physical coordinates -> the coordinate expressions."""
+    import sympy as sp
+    u = case.get("user") or {}
+    l, p = int(M.ldim), int(M.pdim)
+    xs = list(M.logical_coordinates) if l > 1 else [M.logical_coordinates]
+    repl = {}
+    for i, n in enumerate(LOGI):
+        repl[n] = xs[i] if i < l else sp.Integer(0)
+    for s_ in sp.Tuple(*M.expressions).free_symbols - set(xs):
+        repl[s_.name] = s_
+    for k, v in (case.get("params") or {}).items():
+        repl[k] = sp.sympify(param_value(v))
+    pnames = case.get("coordinates") or ["x", "y", "z"][:p]
+    for n, e in zip(pnames, M.expressions):
+        repl[str(n)] = e
+    out = {}
+    for key, attr in (("jac", "jac"), ("inv", "inv_jac")):
+        if u.get(attr) is None:
+            out[key] = None
+            continue
+        m = sp.Matrix([[sp.sympify(x) for x in row] for row in u[attr]])
+        out[key] = m.xreplace({sp.Symbol(k): v for k, v in repl.items()})
+    return out
+
+
+def stored_inverse(M):
+    """jacobian_inv_expr; a mapping WITHOUT expressions computes it on demand and raises on a non-square Jacobian"""
+    from sympy.matrices import NonSquareMatrixError
+    try:
+        return M.jacobian_inv_expr
+    except NonSquareMatrixError:
+        if M.expressions is None and int(M.ldim) != int(M.pdim):
+            return None
+        raise
+
+
+def mapping_exprs(M):
+    """the coordinate functions: the analytical expressions, or the components M[i] of a mapping without expressions"""
+    return list(M.expressions) if M.expressions is not None else [M[i] for i in range(int(M.pdim))]
+
+
+def meta_of(M, case):
+    """What the object exposes besides the five quantities: dimensions, names and assumptions of its coordinates,
+    and the symbols of the stored quantities that are NOT the mapping's logical coordinates / the parameter objects
+    of its coordinate expressions (compared as sympy objects: name AND assumptions AND class)."""
+    import sympy as sp
+    l, p = int(M.ldim), int(M.pdim)
+    lc = M.logical_coordinates
+    lc = list(lc) if l > 1 else [lc]
+    pc = M.coordinates
+    is_seq = isinstance(pc, (tuple, sp.Tuple))
+    pcl = list(pc) if is_seq else [pc]
+    out = {"ldim": l, "pdim": p, "name": str(M.name), "coordinates": [str(c) for c in pcl],
+           "coordinates_real": [bool(getattr(c, "is_real", False)) and isinstance(c, sp.Symbol) for c in pcl],
+           "coordinates_seq": bool(is_seq), "logical": [str(c) for c in lc],
+           "logical_real": [bool(c.is_real) for c in lc], "analytical": bool(M.is_analytical)}
+    if M.expressions is not None:
+        from sympde.core import Constant
+        allowed = set(lc) | sp.Tuple(*M.expressions).free_symbols
+        fs = set()
+        Ji = M.jacobian_inv_expr
+        for e in list(M.jacobian_expr) + list(M.metric_expr) + [M.metric_det_expr] + (list(Ji) if Ji is not None else []):
+            fs |= sp.sympify(e).free_symbols
+        out["stray_symbols"] = sorted(sp.srepr(x) for x in fs - allowed)[:6]
+        params = sp.Tuple(*M.expressions).free_symbols - set(lc)
+        out["parameters"] = sorted(str(x) for x in params)
+        out["parameters_are_Constant"] = all(isinstance(x, Constant) for x in params)
+        out["constants"] = sorted(str(x) for x in (M.constants or ()))
+    return out
+
+
+def abstract_oracle(M, seed):
+    """A mapping WITHOUT expressions: the stored Jacobian must be the matrix of the atoms d M[i] / d x_j; inverse,
+    metric and determinant are evaluated exactly with random rational values for these atoms."""
+    import random
+    import sympy as sp
+    rng = random.Random(seed)
+    l, p = int(M.ldim), int(M.pdim)
+    J = M.jacobian_expr
+    bad = []
+    if tuple(J.shape) != (p, l):
+        return {"tried": 0, "refused": 0, "fails": [{"params": {}, "point": {}, "bad": [("jac-shape", 0, 0, str(J.shape), str((p, l)))]}]}
+    for i in range(p):
+        for j in range(l):
+            want = {"k": "at", "t": "map", "m": str(M.name), "i": i, "al": [0] * j + [1]}
+            try:
+                got = ser.ser_atom(J[i, j]) if _is_derivative(J[i, j]) else None
+            except ser.Unsupported:
+                got = None
+            if got != want:
+                bad.append(("jac", i, j, str(J[i, j])[:25], "dx%d(%s[%d])" % (j + 1, M.name, i)))
+    tried = 0
+    Ji = stored_inverse(M)
+    if not bad:
+        for _ in range(3):
+            vals = {J[i, j]: sp.Rational(rng.randint(1, 9) * rng.choice([1, -1]), rng.choice([1, 2, 3, 5])) + (3 if i == j else 0)
+                    for i in range(p) for j in range(l)}
+            Jv = sp.Matrix(p, l, lambda i, j: vals[J[i, j]])
+            if l == p and Jv.det() == 0:
+                continue
+            tried += 1
+            Gv = Jv.T * Jv
+            if sp.Matrix(M.metric_expr).xreplace(vals) != Gv:
+                bad.append(("metric", 0, 0, "", ""))
+            if sp.nsimplify(sp.sympify(M.metric_det_expr).xreplace(vals)) != Gv.det():
+                bad.append(("mdet", 0, 0, str(sp.sympify(M.metric_det_expr).xreplace(vals)), str(Gv.det())))
+            if l == p:
+                if Ji is None:
+                    bad.append(("jinv-missing", 0, 0, "None", "inverse"))
+                elif (Jv * sp.Matrix(Ji).xreplace(vals)).applyfunc(sp.nsimplify) != sp.eye(p):
+                    bad.append(("jinv", 0, 0, "", ""))
+            if bad:
+                break
+    fails = [{"params": {}, "point": {}, "bad": bad[:6]}] if bad else []
+    return {"tried": tried, "refused": 0, "fails": fails}
 
 
 def _in_range(rng, lo, hi, den=60):
@@ -327,6 +520,7 @@ def run_oracle(case, M=None):
         fs |= sp.sympify(e).free_symbols
     consts_syms = sorted(fs - set(xs), key=str)
     ranges = case.get("ranges") or {}
+    given = read_given(M, case) if case.get("base") == "stored" else None
     tried, refused = 0, 0
     fails = []
     for _ in range(case.get("nparams", 3)):
@@ -334,7 +528,7 @@ def run_oracle(case, M=None):
         for _ in range(case.get("npoints", 3)):
             pt = {x: _in_range(rng, *ranges.get(str(x), (0.1, 0.95)), den=rng.choice([7, 11, 13, 20])) for x in xs}
             try:
-                bad = coherence_at(M, consts, pt)
+                bad = coherence_at(M, consts, pt, base=case.get("base", "ref"), given=given)
             except (Refused, ZeroDivisionError):
                 refused += 1
                 continue
@@ -352,7 +546,31 @@ def _f(x):
     return float(x)
 
 
-def run_numeric(case, M=None):
+def _frac(v):
+    """exact value of a number as 'p/q' (or 'p'); anything symbolic: its srepr"""
+    import fractions
+    import sympy as sp
+    try:
+        if isinstance(v, sp.Rational):
+            return str(fractions.Fraction(int(v.p), int(v.q)))
+        if isinstance(v, sp.Float):
+            return str(fractions.Fraction(float(v)))
+        if isinstance(v, sp.Basic):
+            return "sym:" + sp.srepr(v)
+        return str(fractions.Fraction(v.item() if hasattr(v, "item") else v))
+    except (TypeError, ValueError):
+        return "other:" + type(v).__name__
+
+
+def callable_props(F, M):
+    """The symbolic information a CallableMapping exposes (properties ldim / pdim / params / symbolic_mapping)."""
+    prm = F.params
+    return {"ldim": int(F.ldim), "pdim": int(F.pdim), "params": {str(k): _frac(v) for k, v in dict(prm).items()},
+            "symbolic_is_mapping": F.symbolic_mapping is M,
+            "symbolic_dims": [int(F.symbolic_mapping.ldim), int(F.symbolic_mapping.pdim)]}
+
+
+def run_numeric(case, M=None, F=None):
     """Callable mapping (real get_callable_mapping) against exact evaluation.
 
     Reference, independent of every stored quantity: the coordinate expressions of the object built with the EXACT
@@ -369,10 +587,13 @@ def run_numeric(case, M=None):
     l, p = int(M.ldim), int(M.pdim)
     xs = list(M.logical_coordinates) if l > 1 else [M.logical_coordinates]
     xsx = list(Mx.logical_coordinates) if l > 1 else [Mx.logical_coordinates]
-    F = M.get_callable_mapping()
+    own = F is None
+    if own:
+        F = M.get_callable_mapping()
     exprs = [sp.sympify(e) for e in Mx.expressions]
     Jsym = [[sp.diff(e, x) for x in xsx] for e in exprs]
     out = {"points": 0, "compared": 0, "worst": {}, "fails": [], "refused_points": 0}
+    out["props"] = dict(callable_props(F, M), cached=(M.get_callable_mapping() is F) if own else None)
 
     def reference(pt):
         sub = {x: sp.Rational(v) for x, v in zip(xsx, pt)}
@@ -613,7 +834,8 @@ def run_shape(case):
 
 
 def run_probe(case):
-    """CallableMapping(mapping, **params) on a mapping whose parameters were left symbolic."""
+    """CallableMapping(mapping, **params) on a mapping whose parameters were left symbolic: the values of all five
+    quantities against the exact reference, and the symbolic information the callable exposes."""
     import numpy as np
     import sympy as sp
     from sympde.topology.callable_mapping import CallableMapping
@@ -631,7 +853,35 @@ def run_probe(case):
     except Exception as e:  # noqa
         return {"ok": False, "what": "raised %s" % errkind(e), "msg": str(e)[:200], "want": want}
     ok = bool(np.allclose(got, want, rtol=1e-9, atol=1e-12))
-    return {"ok": ok, "got": got, "want": want, "what": None if ok else "wrong values"}
+    out = {"ok": ok, "got": got, "want": want, "what": None if ok else "wrong values",
+           "symbolic_constants": sorted(str(c) for c in (M.constants or ()))}
+    if ok:
+        try:
+            out["numeric"] = run_numeric(dict(case, points=[pt] + list(case.get("points", [])), grids=case.get("grids", [])), M, F=F)
+        except Exception as e:  # noqa
+            out["numeric"] = {"err": errkind(e), "msg": traceback.format_exc()[-600:]}
+    return out
+
+
+def run_ctor(case):
+    """Behaviour of the constructor as a small enum: refusal kind / unevaluated object / object with its meta data."""
+    cls = get_class(case)
+    kw = build_kwargs(case, cls)
+    for k, v in (case.get("raw") or {}).items():
+        kw[k] = tuple(v) if case.get("raw_tuple") and isinstance(v, list) else v
+    if "evaluate" in case:
+        kw["evaluate"] = case["evaluate"]
+    from sympy.core.cache import clear_cache
+    clear_cache()
+    try:
+        M = cls(str(case.get("mname", "M")), **kw)
+    except (ValueError, TypeError, AssertionError) as e:
+        return {"outcome": errkind(e)}
+    if case.get("evaluate") is False:
+        # the bare object: nothing is parsed or computed (Mapping.copy fills it afterwards)
+        return {"outcome": "unevaluated", "jac_none": M.jacobian_expr is None, "metric_none": getattr(M, "_metric", None) is None,
+                "expressions_raw": M._expressions is None or isinstance(M._expressions, dict)}
+    return {"outcome": "ok", "meta": meta_of(M, case)}
 
 
 def run_full(case):
@@ -640,17 +890,41 @@ def run_full(case):
     t0 = time.time()
     M = build(case)
     out = {"build_s": round(time.time() - t0, 2)}
+    abstract = M.expressions is None
+    out["meta"] = meta_of(M, case)
     if "entry" in want:
         try:
-            out["entry"] = {"ldim": int(M.ldim), "pdim": int(M.pdim), "expr": [ser16(e) for e in M.expressions],
-                            "jac": ser_mat(M.jacobian_expr), "jinv": ser_mat(M.jacobian_inv_expr),
+            out["entry"] = {"ldim": int(M.ldim), "pdim": int(M.pdim), "expr": [ser16(e) for e in mapping_exprs(M)],
+                            "jac": ser_mat(M.jacobian_expr), "jinv": ser_mat(stored_inverse(M)),
                             "metric": ser_mat(M.metric_expr), "mdet": ser16(M.metric_det_expr),
                             "constants": sorted(str(c) for c in (M.constants or ()))}
         except ser.Unsupported as e:
             out["entry"] = {"err": "unsupported-node", "msg": str(e)[:200]}
+        if case.get("base") == "stored" and "err" not in out["entry"]:
+            try:
+                g = read_given(M, case)
+                out["entry"]["given_jac"] = ser_mat(g["jac"])
+                out["entry"]["given_inv"] = ser_mat(g["inv"])
+            except ser.Unsupported as e:
+                out["entry"]["given_err"] = str(e)[:200]
+    if "copy" in want:
+        # Mapping.copy() goes through the evaluate=False constructor: the copy must expose the same quantities
+        C = M.copy()
+        same = all(a == b for a, b in [(C.jacobian_expr, M.jacobian_expr), (C.metric_expr, M.metric_expr),
+                                       (C.metric_det_expr, M.metric_det_expr), (C.expressions, M.expressions),
+                                       (C.ldim, M.ldim), (C.pdim, M.pdim), (C.name, M.name)])
+        if not abstract:
+            same = same and C.jacobian_inv_expr == M.jacobian_inv_expr
+        out["copy_same"] = bool(same)
     if "oracle" in want:
         try:
-            out["oracle"] = run_oracle(case, M if not any(v[0] in ("float", "npfloat") for v in (case.get("params") or {}).values()) else None)
+            if abstract:
+                out["oracle"] = abstract_oracle(M, case.get("seed", 0))
+            else:
+                floaty = any(v[0] in ("float", "npfloat") for v in (case.get("params") or {}).values())
+                out["oracle"] = run_oracle(dict(case, base="ref"), M if not floaty else None)
+                if case.get("base") == "stored":
+                    out["internal"] = run_oracle(case, M if not floaty else None)
         except Exception as e:  # noqa
             out["oracle"] = {"err": errkind(e), "msg": traceback.format_exc()[-600:]}
     if "numeric" in want:
@@ -699,6 +973,8 @@ def run_case(case):
         return run_full(case)
     if mode == "probe":
         return run_probe(case)
+    if mode == "ctor":
+        return run_ctor(case)
     raise ValueError(mode)
 
 
